@@ -158,6 +158,15 @@ pub fn multipliers(thorough: bool, seed: u64) -> Vec<u128> {
             v.push((base as i128 + off as i128) as u128);
         }
     }
+    // beyond the property's stated range (2^70), for its last sentence only: it never wraps
+    for k in [100u32, 126, 127] {
+        for off in -2i32..=2 {
+            v.push((1u128 << k).wrapping_add(off as i128 as u128));
+        }
+    }
+    v.push(u128::MAX);
+    v.push(u128::MAX - 1);
+    v.push(u128::MAX / 2);
     v.push((1u128 << 70) - 2);
     v.push((1u128 << 70) - 1);
     v.push(1u128 << 70);
@@ -204,7 +213,7 @@ pub fn run(ctx: &Ctx) -> (Outcome, String, Option<bool>) {
     }
     let o = run_enumeration(ctx, "activation-boundary", bcases, |(net, ms), st, shard| boundary_case(*net, ms.parse().unwrap(), st, shard));
     out.absorb(o);
-    let rule = format!("Enumerated: all 256 deltas x multipliers {{0..{} step {}}} + {{2^k-2..2^k+2 : 7<=k<=69}} + {{2^70-2, 2^70-1, 2^70}} + pseudo-random values below 2^70 ({} multipliers), on Custom02 (TIP-901 active) and on Mainnet and Testnet at height 0 (TIP-901 inactive; every third chunk), plus sealing without action, plus runs of 300 blocks of extreme deltas (-128, 127, -1, 1 in stretches of 40) from selected starting points. Additionally, for 13 starting multipliers, the blocks at heights activation-2 .. activation+2 of TIP-901 on mainnet (42 700; state re-based through from_block) and testnet (500; reached with empty blocks) are sealed with deltas -128, -64, -1, 1, 64, 127. Oracle: m' = m + trunc(max(m>>7, 2 if TIP-901) * d / 128) in exact integer arithmetic; where that leaves [0, 2^128) the only requirement is that sealing does not fail and the multiplier does not move the wrong way or wrap; no action => unchanged. Non-trivial = (m, d) with d != 0; distinct by (m, d, TIP-901).", if ctx.thorough() { 16384 } else { 4096 }, if ctx.thorough() { 1 } else { 2 }, ms.len());
+    let rule = format!("Enumerated: all 256 deltas x multipliers {{0..{} step {}}} + {{2^k-2..2^k+2 : 7<=k<=69}} + {{2^70-2, 2^70-1, 2^70}} + pseudo-random values below 2^70 + a few values around 2^100, 2^126, 2^127 and 2^128-1 ({} multipliers), on Custom02 (TIP-901 active) and on Mainnet and Testnet at height 0 (TIP-901 inactive; every third chunk), plus sealing without action, plus runs of 300 blocks of extreme deltas (-128, 127, -1, 1 in stretches of 40) from selected starting points. Additionally, for 13 starting multipliers, the blocks at heights activation-2 .. activation+2 of TIP-901 on mainnet (42 700; state re-based through from_block) and testnet (500; reached with empty blocks) are sealed with deltas -128, -64, -1, 1, 64, 127. Oracle: m' = m + trunc(max(m>>7, 2 if TIP-901) * d / 128) in exact integer arithmetic; where that leaves [0, 2^128) the only requirement is that sealing does not fail and the multiplier does not move the wrong way or wrap; no action => unchanged. Non-trivial = (m, d) with d != 0; distinct by (m, d, TIP-901).", if ctx.thorough() { 16384 } else { 4096 }, if ctx.thorough() { 1 } else { 2 }, ms.len());
     (out, rule, Some(true))
 }
 
